@@ -120,6 +120,22 @@ Proof.
   unfold issue_refresh in Hiss. injection Hiss as _ <-. cbn [t_scope]. auto.
 Qed.
 
+(* the refreshed id_token keeps the subject of the presented token - whatever the narrowed scope
+   (with or without openid) *)
+Lemma keeps_subject pl r s cr rt scopes s' t :
+  step H cf r s (TokenRefresh pl cr rt scopes) = (s', OTokens t) ->
+  exists n r0, rt = Some n /\ find_rt s n = Some r0 /\ t_sub t = r_sub r0 /\ t_at_sub t = r_sub r0.
+Proof.
+  intro Hs. apply step_trans in Hs.
+  apply trans_refresh_inv in Hs as [n [r0 [c [sc [-> [Hrt [_ [_ [_ [_ [_ Hiss]]]]]]]]]]].
+  exists n, r0. unfold issue_refresh in Hiss. injection Hiss as _ <-. cbn [t_sub t_at_sub]. auto.
+Qed.
+
+(* a request that was in flight while another operation ran is answered as if sent alone *)
+Lemma overlap_alone r s cr rt scopes :
+  step H cf r s (TokenRefresh P_overlap cr rt scopes) = step H cf r s (TokenRefresh P_body cr rt scopes).
+Proof. cbn [step]. now rewrite !read_grant_ok, !read_field_ok. Qed.
+
 Lemma refusal_keeps_state pl r s cr rt scopes s' x :
   step H cf r s (TokenRefresh pl cr rt scopes) = (s', x) -> is_tokens x = false -> s' = s.
 Proof. intros Hs Hk. apply step_trans in Hs. eapply trans_refresh_refused; eauto. Qed.
